@@ -25,8 +25,12 @@ static const int alert_descs[] = { 0, 10, 20, 21, 22, 30, 40, 41, 42, 43, 44, 45
 
 /* K_PROT_ALERT (TLS 1.3): a correctly protected alert record an honest MatrixSSL peer never sends: a = level << 8 | description,
  * sealed by the toolkit under the traffic secret the victim currently reads with (a malicious peer's own key) */
-enum { K_PLAIN_ALERT = 0, K_PEER_FATAL, K_PEER_CLOSE, K_CORRUPT, K_ILLEGAL_HS, K_OVERSIZE, K_BADVER, K_TRUNC_TAG, K_PROT_ALERT, K_NKIND };
-static const char *kname[] = { "fatal-alert", "peer-fatal-alert", "peer-close-notify", "corrupt-record", "illegal-hs-msg", "oversize-record", "bad-version", "warning-close-notify", "protected-alert" };
+enum { K_PLAIN_ALERT = 0, K_PEER_FATAL, K_PEER_CLOSE, K_CORRUPT, K_ILLEGAL_HS, K_OVERSIZE, K_BADVER, K_TRUNC_TAG, K_PROT_ALERT, K_SHORT_ALERT, K_PROT_SHORT, K_JUNK_FLOOD, K_NKIND };
+/* K_SHORT_ALERT: a plaintext alert record whose body is a single byte.  K_PROT_SHORT (TLS 1.3): a correctly protected record
+ * whose inner content is too short to be a message: a = inner type << 8 | number of content bytes (alert: 1; handshake: 1, 2,
+ * 3 bytes of a header).  K_JUNK_FLOOD (TLS 1.3 server): records that do not decrypt, a = body length, as many as it takes to
+ * exceed ANY early-data allowance (the server may skip records only while it rejects early data, and only up to its limit) */
+static const char *kname[] = { "fatal-alert", "peer-fatal-alert", "peer-close-notify", "corrupt-record", "illegal-hs-msg", "oversize-record", "bad-version", "warning-close-notify", "protected-alert", "one-byte-alert-record", "protected-record-too-short-for-a-message", "flood-of-undecryptable-records" };
 typedef struct { int kind, a; } kill_t;
 static kill_t kills[128];
 static int nkill;
@@ -64,6 +68,14 @@ static void build_kills(void)
     kills[nkill++] = (kill_t) { K_BADVER, 1 };     /* a real version of the same family, but not the negotiated one */
     kills[nkill++] = (kill_t) { K_BADVER, 2 };     /* a version of the other family (DTLS <-> TLS) */
     kills[nkill++] = (kill_t) { K_TRUNC_TAG, 0 };  /* warning-level close_notify in plaintext */
+    kills[nkill++] = (kill_t) { K_SHORT_ALERT, 0 };
+    kills[nkill++] = (kill_t) { K_PROT_SHORT, (21 << 8) | 1 };
+    kills[nkill++] = (kill_t) { K_PROT_SHORT, (22 << 8) | 1 };
+    kills[nkill++] = (kill_t) { K_PROT_SHORT, (22 << 8) | 2 };
+    kills[nkill++] = (kill_t) { K_PROT_SHORT, (22 << 8) | 3 };
+    kills[nkill++] = (kill_t) { K_JUNK_FLOOD, 17 };
+    kills[nkill++] = (kill_t) { K_JUNK_FLOOD, 16 };
+    kills[nkill++] = (kill_t) { K_JUNK_FLOOD, 117 };
     {
         static const int lv[] = { 1, 2, 0, 3 }, ds[] = { 10, 20, 40, 47, 50, 80, 109, 255, 90, 0 };
         int a, b;
@@ -145,6 +157,32 @@ static int apply_kill(gctx_t *g, const kill_t *k)
         body[0] = 1; body[1] = 0;
         len = mk_record(rec, dtls, 21, maj, min, 0, 41, body, 2);
         return world_feed(&g->w, v, rec, len);
+    case K_SHORT_ALERT:
+        body[0] = 2;
+        len = mk_record(rec, dtls, 21, maj, min, 0, 44, body, 1);
+        g->prot_alert_sent = 1;
+        return world_feed(&g->w, v, rec, len);
+    case K_JUNK_FLOOD:
+    {
+        /* only meaningful for a TLS 1.3 server in its handshake (elsewhere the first such record kills: corrupt-record) */
+        ssl_t *ssl = g->w.s[v].ssl;
+        int i, n, rcx = 1;
+        if (v != 1 || dtls || !ssl || !NGTD_VER(ssl, v_tls_1_3_any) || world_is_complete(&g->w, v))
+        {
+            return 1;
+        }
+        n = 16384 / (k->a > 17 ? k->a - 17 : 1) + 3;
+        memset(rec + 5, 0x5d, (size_t) k->a);
+        rec[0] = 23; rec[1] = 3; rec[2] = 3; rec[3] = (unsigned char) (k->a >> 8); rec[4] = (unsigned char) k->a;
+        for (i = 0; i < n && g->w.s[v].err_rc >= 0 && ssl->err == SSL_ALERT_NONE && !(ssl->flags & SSL_FLAGS_ERROR); i++)
+        {
+            rcx = world_feed(&g->w, v, rec, 5 + k->a);
+            if ((i & 63) == 63) g->w.trace.len = g->w.trace.len > 8192 ? 8192 : g->w.trace.len;
+        }
+        g->prot_alert_sent = 1;
+        return rcx;
+    }
+    case K_PROT_SHORT:
     case K_PROT_ALERT:
     {
         unsigned char sec[64];
@@ -170,6 +208,12 @@ static int apply_kill(gctx_t *g, const kill_t *k)
         fk.seq = 0;
         for (i = 0; i < 8; i++) fk.seq = (fk.seq << 8) | ssl->sec.remSeq[i];
         body[0] = (unsigned char) (k->a >> 8); body[1] = (unsigned char) k->a;
+        if (k->kind == K_PROT_SHORT)
+        {
+            body[0] = (k->a >> 8) == 21 ? 2 : 4; body[1] = 0; body[2] = 0;
+            len = tk13_seal(&fk, k->a >> 8, body, k->a & 0xff, rec);
+        }
+        else
         len = tk13_seal(&fk, 21, body, 2, rec);
         if (len <= 0)
         {
@@ -462,6 +506,14 @@ static void run_case(void *ctx, mx_result_t *r)
                says, unknown descriptions included; close_notify closes the read side (is_dead sees it as a closure) */
             int desc = k->a & 0xff;
             must = desc != 90 && desc != 0;
+        }
+        if ((k->kind == K_PROT_SHORT || k->kind == K_JUNK_FLOOD) && g->prot_alert_sent)
+        {
+            must = 1;   /* a record that cannot hold a message is a decode error; no allowance covers that many records */
+        }
+        if (k->kind == K_SHORT_ALERT && g->prot_alert_sent && !ver_is_dtls(c->ver) && negotiated)
+        {
+            must = 1;
         }
         if (must && (k->kind != K_BADVER || g->orig_len > 0))
         {
